@@ -10,7 +10,6 @@ import (
 // goroutines of its own; it is never taken on a library that starts none.
 var foreignMu sync.Mutex
 
-
 // Goroutines started by the library itself ("foreign" goroutines) are not tasks of the simulator:
 // the unchanged library starts none. Should a changed library start some, the simulator must not
 // mistake them for the task that is current: they run for real, outside the schedule, and every
@@ -60,7 +59,6 @@ func foreign() bool {
 	}
 	return seqOwner != 0 && g != seqOwner
 }
-
 
 // Foreign reports whether the calling goroutine was started by the library itself (harness
 // callbacks - caches, loaders - must not treat it as the current task).
